@@ -87,6 +87,10 @@ def command_of(s, by_out):
         parts.append("copy=1")
     if s.depall:
         parts.append("depall=1")
+    if getattr(s, "dep_all_outs", False):
+        parts.append("dall=1")
+    if getattr(s, "dep_spell", None):
+        parts.append("dsp=" + ";".join("%s=%s" % kv for kv in sorted(s.dep_spell.items())).encode("latin-1").hex())
     if s.rsp:
         parts.append("rsp=" + s.rsp[0])
     if s.prints is not None:
@@ -101,7 +105,8 @@ def esc_path(p):
 
 
 class Variant:
-    def __init__(self, name, stmts, pools=None, defaults=(), extra_files=None, header=""):
+    def __init__(self, name, stmts, pools=None, defaults=(), extra_files=None, header="", spell=None):
+        self.spell = dict(spell or {})   # canonical name -> how the manifest spells it (C14)
         self.name = name
         self.stmts = stmts
         self.pools = dict(pools or {})
@@ -145,26 +150,30 @@ class Variant:
                 lines.append("  rspfile = " + s.rsp[0])
                 # a literally empty value is rejected by the parser; an empty *evaluated* content is legal
                 lines.append("  rspfile_content = " + (s.rsp[1] if s.rsp[1] else "$rsp_nothing"))
+        sp = self.spell
+
+        def spath(x):
+            return esc_path(sp.get(x, x))
         for i, s in enumerate(self.stmts):
-            l = "build " + " ".join(esc_path(o) for o in s.outs)
+            l = "build " + " ".join(spath(o) for o in s.outs)
             if s.iouts:
-                l += " | " + " ".join(esc_path(o) for o in s.iouts)
+                l += " | " + " ".join(spath(o) for o in s.iouts)
             l += ": " + ("phony" if s.phony else "r%d" % i)
             if s.ex:
-                l += " " + " ".join(esc_path(x) for x in s.ex)
+                l += " " + " ".join(spath(x) for x in s.ex)
             if s.im:
-                l += " | " + " ".join(esc_path(x) for x in s.im)
+                l += " | " + " ".join(spath(x) for x in s.im)
             if s.oo:
-                l += " || " + " ".join(esc_path(x) for x in s.oo)
+                l += " || " + " ".join(spath(x) for x in s.oo)
             if s.val:
-                l += " |@ " + " ".join(esc_path(x) for x in s.val)
+                l += " |@ " + " ".join(spath(x) for x in s.val)
             lines.append(l)
             if s.pool:
                 lines.append("  pool = " + s.pool)
             if s.dyndep:
                 lines.append("  dyndep = " + s.dyndep)
         if self.defaults:
-            lines.append("default " + " ".join(self.defaults))
+            lines.append("default " + " ".join(spath(x) for x in self.defaults))
         return "\n".join(lines) + "\n"
 
     def to_json(self):
@@ -286,6 +295,19 @@ def declared_twin(v):
         out.append(t)
     return Variant(v.name + "-declared", out, pools=v.pools, defaults=v.defaults, extra_files=v.extra_files,
                    header="# declared twin")
+
+
+def unspelled_twin(v):
+    """The same project with every name written canonically: in the manifest, in the depfiles / showIncludes
+    output of its tools (C14: spellings that differ only lexically name the same file)."""
+    import copy
+    out = []
+    for s in v.stmts:
+        t = copy.copy(s)
+        t.dep_spell = None
+        out.append(t)
+    return Variant(v.name + "-canonical", out, pools=v.pools, defaults=v.defaults, extra_files=v.extra_files,
+                   header="# canonical twin")
 
 
 def standard_ops(variants, files, js=(1, 3), with_faults=True, with_rm=True, targets_extra=(), touch=False,
